@@ -358,7 +358,15 @@ class Parser:
                     i = toks.index('=')
                     return ('alias', ' '.join(toks[:i]), ''.join(toks[i + 1:]))
                 return ('using',)
-            if v in ('do', 'switch', 'try', 'goto', 'throw', 'case'):
+            if v == 'do':
+                self.next()
+                body = self.parse_stmt()
+                if not self.at('while'):
+                    self.err('`while` expected after the body of do')
+                self.next(); self.expect('(')
+                c = self.parse_expr(); self.expect(')'); self.expect(';')
+                return ('dowhile', body, c)
+            if v in ('switch', 'try', 'goto', 'throw', 'case'):
                 self.err('statement kind not supported')
             if self.looks_like_decl():
                 d = self.parse_decl()
@@ -415,7 +423,7 @@ class Parser:
             try:
                 self.next()
                 ty = self.parse_type_text()
-                if self.at(')') and ty.split()[0] in ('uintptr_t', 'std::uintptr_t', 'char', 'std::size_t', 'const', 'void', 'int', 'unsigned'):
+                if self.at(')') and (ty.split()[0] in ('uintptr_t', 'std::uintptr_t', 'char', 'std::size_t', 'const', 'void', 'int', 'unsigned') or ty.rstrip().endswith('*')):
                     self.next()
                     return ('cast', 'c', ty, self.parse_unary())
             except Unsupported:
